@@ -26,6 +26,7 @@ from lsim import core
 CURRENT_WORLD = [None]
 LIVE = weakref.WeakSet()     # proxies (hence real connections) that somebody still refers to
 QUERY_RE = re.compile(r'(\s|--[^\n]*\n|/\*.*?\*/)*\(*\s*(SELECT|WITH|VALUES)\b', re.I | re.S)
+WRITE_RE = re.compile(r'\s*(DROP|CREATE|INSERT|ALTER|DELETE|UPDATE)\b', re.I)
 RENAME_RE = re.compile(r'ALTER\s+TABLE\s+(\S+)\s+RENAME\s+TO\s+(\S+?)\s*;?\s*$', re.I)
 
 
@@ -93,6 +94,7 @@ class World(object):
     self.full_applied = False
     self.step_budget = 200      # x 100000 SQLite VM steps per statement
     self.retain_connections = False
+    self.busy_done = set()
     self.retained = []
 
   def release(self):
@@ -186,7 +188,15 @@ class Proxy(object):
       w.fired.append(('abort', k))
       st.error = 'SimAbort'
       raise SimAbort('simulated process death before statement %d' % k)
-    f = w.fault_at('busy', k)
+    # the other client's lock only matters to a statement that writes the attached file: it is
+    # taken at the first such statement at or after the drawn position
+    f = None
+    for x in w.faults:
+      if (x['kind'] == 'busy' and x.get('at', 0) <= k and id(x) not in w.busy_done and
+          WRITE_RE.match(sql) and 'logica_home' in sql):
+        f = x
+        w.busy_done.add(id(x))
+        break
     if f and f.get('file') and os.path.exists(f['file']):
       w.locker = sqlite3.connect(f['file'], timeout=0, isolation_level=None)
       try:
